@@ -42,7 +42,8 @@ MIN_NONTRIVIAL = {"quick": 60, "thorough": 400}
 PLAN = [("bounds_form", 100, 1500), ("dict_nlc", 120, 2000),
         ("lin_split", 120, 2000), ("nl_split", 120, 2000),
         ("regroup", 100, 1500), ("fixed", 200, 3000), ("scale", 200, 3000),
-        ("fixed_scale", 120, 2000), ("nan_limits", 120, 2000)]
+        ("fixed_scale", 120, 2000), ("nan_limits", 120, 2000),
+        ("nl_regroup", 120, 2000)]
 EPS = np.finfo(float).eps
 
 
@@ -341,6 +342,46 @@ def run_case(case):
         ra, rb = mrun.run(spec), mrun.run(s2)
         compare(ra, rb, viols, kind, info)
         nt = f"{fam}|m{m}|n{n}|{spec['con_kind']}"
+    elif fam == "nl_regroup":
+        # one vector-valued NonlinearConstraint <-> one object per component
+        # (same order, one-sided limits of one kind so that the internal order
+        # is the same), with undefined values on ONE component at some
+        # evaluations: what the solver sees must not depend on the grouping
+        spec = base_spec(rng, str(rng.choice(["nl", "both"])))
+        n = spec["n"]
+        x0 = np.asarray(spec["x0"])
+        m = int(rng.integers(2, 4))
+        side = str(rng.choice(["upper", "lower"]))
+        ent = gen.nonlinear_constraints(rng, n, x0, count=1, forms=("nlc",),
+                                        kinds=(side,))[0]
+        while len(ent["comps"]) < m:
+            ent["comps"].append(gen.nl_component(rng, n))
+        comps = ent["comps"][:m]
+        from vlib.problems import base_component
+        v0 = np.array([base_component(c, n)(x0) for c in comps])
+        lim = (v0 + rng.uniform(-1, 1, m)).tolist()
+        if side == "upper":
+            lo, hi = [-math.inf] * m, lim
+        else:
+            lo, hi = lim, [math.inf] * m
+        spec["nl"] = [{"comps": comps, "form": "nlc", "lb": lo, "ub": hi}]
+        s2 = copy.deepcopy(spec)
+        s2["nl"] = [{"comps": [comps[i]], "form": "nlc", "lb": [lo[i]],
+                     "ub": [hi[i]]} for i in range(m)]
+        if rng.random() < 0.7:
+            ci = int(rng.integers(m))
+            idx = sorted(set(int(v) for v in rng.integers(
+                2, 25, int(rng.integers(1, 4)))))
+            val = str(rng.choice(["nan", "nan", "inf"]))
+            spec["faults"] = [{"target": "con", "j": 0, "comp": ci,
+                               "val": val, "when": {"idx": idx}}]
+            s2["faults"] = [{"target": "con", "j": ci, "comp": 0,
+                             "val": val, "when": {"idx": idx}}]
+            tags.append("component_fault")
+        ra, rb = mrun.run(spec), mrun.run(s2)
+        compare(ra, rb, viols, "vector nonlinear constraint vs one object "
+                "per component", info)
+        nt = f"nl_regroup|m{m}|n{n}|{side}|{spec['con_kind']}"
     elif fam == "nan_limits":
         # a NaN limit means "no limit": same problem with -inf / +inf
         spec = base_spec(rng, str(rng.choice(["lin", "nl", "both"])),
